@@ -17,6 +17,12 @@ use tracing::{error, info, warn};
 
 static CURRENT_STREAM_ID: AtomicU32 = AtomicU32::new(1);
 
+/// Verification hook: gives an in-process restart the stream id cursor a new process would have.
+#[cfg(iggy_verif)]
+pub fn verif_reset_process_globals() {
+    CURRENT_STREAM_ID.store(1, Ordering::SeqCst);
+}
+
 impl System {
     pub(crate) async fn load_streams(
         &mut self,
